@@ -908,7 +908,7 @@ func (u *Unit) mapDom(v *HeapView, mt types.Type, ref Term) Term {
 func (u *Unit) mapLookup(v *HeapView, mt types.Type, ref, key Term) (val Value, present Term) {
 	ks, vt := u.mapSorts(mt)
 	dom := u.mapDom(v, mt, ref)
-	u.noteSumKey(ks, key)
+	u.noteSumKeyT(ks, key, mt.Underlying().(*types.Map).Key())
 	present = And(Neq(ref, TNil), Select(dom, key))
 	if isEmptyStruct(vt) {
 		return &StructV{Typ: vt, Zero: true}, present
@@ -1007,7 +1007,7 @@ func (u *Unit) mapStore(st *State, mt types.Type, ref, key Term, val Value) {
 	domFam := mapDomFam(mt)
 	domArr := u.heapGet(st, domFam, ArrSort(SInt, ArrSort(ks, SBool)))
 	oldDom := Select(domArr, ref)
-	u.noteSumKey(ks, key)
+	u.noteSumKeyT(ks, key, mt.Underlying().(*types.Map).Key())
 	newDom := u.ctx.Named("dom", Store(oldDom, key, TTrue))
 	// cardinality bookkeeping
 	f := u.cardFun(ks)
@@ -1064,7 +1064,7 @@ func (u *Unit) mapDelete(st *State, mt types.Type, ref, key Term) {
 	domFam := mapDomFam(mt)
 	domArr := u.heapGet(st, domFam, ArrSort(SInt, ArrSort(ks, SBool)))
 	oldDom := Select(domArr, ref)
-	u.noteSumKey(ks, key)
+	u.noteSumKeyT(ks, key, mt.Underlying().(*types.Map).Key())
 	newDom := u.ctx.Named("dom", Store(oldDom, key, TFalse))
 	f := u.cardFun(ks)
 	u.ctx.Assert(Implies(st.G, Eq(app(f, SInt, newDom), Ite(Select(oldDom, key), Arith("-", app(f, SInt, oldDom), TOne), app(f, SInt, oldDom)))), "card-delete")
